@@ -111,10 +111,14 @@ const nSpecialStr = 22
 func stringAlphabet(hash func(string) uint64) []string {
 	base := hash("a")
 	var c101 []string
-	var c203, cboth string
-	for i := 0; i < 400000 && (len(c101) < 2 || c203 == "" || cboth == ""); i++ {
+	var c203, cboth, zero string
+	for i := 0; i < 400000 && (len(c101) < 2 || c203 == "" || cboth == "" || zero == ""); i++ {
 		s := fmt.Sprintf("c%d", i)
 		h := hash(s)
+		if zero == "" && h%101 == 0 && h%203 == 0 {
+			zero = s // bucket 0 of the 101- and the 203-table
+			continue
+		}
 		e101, e203 := h%101 == base%101, h%203 == base%203
 		switch {
 		case e101 && e203:
@@ -137,8 +141,11 @@ func stringAlphabet(hash func(string) uint64) []string {
 	if cboth == "" {
 		cboth = "c-both-missing"
 	}
-	a := []string{"a", c101[0], c101[1], c203, "", "b", "A", "aa", "ab", "키", " ", "a\x00", "0", "-1",
-		strings.Repeat("long", 75), cboth, "zz", "a ", "\xff\xfe", "B", "ba", "Ab"}
+	if zero == "" {
+		zero = "c-zero-missing"
+	}
+	a := []string{"a", c101[0], c101[1], c203, "", zero, "A", "aa", "ab", "키", " ", "a\x00", "0", "-1",
+		strings.Repeat("long", 75), cboth, "zz", "a ", "\xff\xfe", "B", "ba", "b"}
 	if len(a) != nSpecialStr {
 		panic("string specials")
 	}
